@@ -5,8 +5,12 @@ use std::path::Path;
 
 /// A layout: relative file paths (each file gets a unique marker so that a loaded module identifies its file).
 fn write_layout(root: &str, files: &[&str], entry_imports: &str, sub_imports: Option<(&str, &str)>) {
+    write_layout_at(root, "p", files, entry_imports, sub_imports)
+}
+
+fn write_layout_at(root: &str, entry_dir: &str, files: &[&str], entry_imports: &str, sub_imports: Option<(&str, &str)>) {
     let _ = std::fs::remove_dir_all(root);
-    std::fs::create_dir_all(format!("{root}/p")).expect("mkdir");
+    std::fs::create_dir_all(format!("{root}/{entry_dir}")).expect("mkdir");
     for f in files {
         let full = format!("{root}/{f}");
         if let Some(parent) = Path::new(&full).parent() {
@@ -27,7 +31,7 @@ fn write_layout(root: &str, files: &[&str], entry_imports: &str, sub_imports: Op
         };
         std::fs::write(&full, format!("{extra}pub const MARK_{marker}: int = 1\n\npub def x() -> int:\n    return 1\n")).expect("w");
     }
-    std::fs::write(format!("{root}/p/main.incn"), format!("{entry_imports}\n\ndef main() -> None:\n    pass\n")).expect("w");
+    std::fs::write(format!("{root}/{entry_dir}/main.incn"), format!("{entry_imports}\n\ndef main() -> None:\n    pass\n")).expect("w");
 }
 
 fn parse_import(line: &str) -> Option<ImportDecl> {
@@ -56,7 +60,11 @@ fn rel(root: &str, p: &Path) -> String {
 
 /// Which file does the CLI load for the (single) import of the entry file?  Found through the marker.
 fn cli_loaded(root: &str, files: &[&str]) -> Result<Vec<String>, String> {
-    let mods = incan::cli::commands::collect_modules(&format!("{root}/p/main.incn")).map_err(|e| format!("error:{}", e.message.lines().next().unwrap_or("")))?;
+    cli_loaded_at(root, "p", files)
+}
+
+fn cli_loaded_at(root: &str, entry_dir: &str, files: &[&str]) -> Result<Vec<String>, String> {
+    let mods = incan::cli::commands::collect_modules(&format!("{root}/{entry_dir}/main.incn")).map_err(|e| format!("error:{}", e.message.lines().next().unwrap_or("")))?;
     let mut out = Vec::new();
     for m in &mods {
         for f in files {
@@ -71,10 +79,14 @@ fn cli_loaded(root: &str, files: &[&str]) -> Result<Vec<String>, String> {
 }
 
 fn fs_enc(files: &[&str]) -> String {
+    fs_enc_at("p", files)
+}
+
+fn fs_enc_at(entry_dir: &str, files: &[&str]) -> String {
     let mut fs: Vec<String> = files.iter().filter(|f| !f.ends_with('/')).map(|f| f.to_string()).collect();
-    fs.push("p/main.incn".to_string());
+    fs.push(format!("{entry_dir}/main.incn"));
     let mut dirs: std::collections::BTreeSet<String> = std::collections::BTreeSet::new();
-    for f in files.iter().map(|f| f.to_string()).chain(std::iter::once("p/main.incn".to_string())) {
+    for f in files.iter().map(|f| f.to_string()).chain(std::iter::once(format!("{entry_dir}/main.incn"))) {
         let comps: Vec<&str> = f.trim_end_matches('/').split('/').collect();
         let upto = if f.ends_with('/') { comps.len() } else { comps.len() - 1 };
         for k in 1..=upto {
@@ -99,6 +111,79 @@ fn resolve_case(out: &mut Out, root: &str, files: &[&str], import_line: &str) {
         Err(m) => format!("panic {m}"),
     };
     out.case(&format!("c14 resolve {} p p {e}", fs_enc(files)), &format!("cli={cli} shared={shared}"));
+}
+
+/// The entry file lives deeper (`<entry_dir>/main.incn`): multi-level `super::` imports written in the entry itself.
+fn resolve_case_at(out: &mut Out, root: &str, entry_dir: &str, files: &[&str], import_line: &str) {
+    let Some(imp) = parse_import(import_line) else { return };
+    let Some(e) = enc_import(&imp) else { return };
+    write_layout_at(root, entry_dir, files, import_line, None);
+    let cli = match catch(|| cli_loaded_at(root, entry_dir, files)) {
+        Ok(Ok(v)) => if v.is_empty() { "none".to_string() } else { v.join(",") },
+        Ok(Err(e)) => e,
+        Err(m) => format!("panic {m}"),
+    };
+    let shared = match catch(|| incan::frontend::module::resolve_import_path(Path::new(&format!("{root}/{entry_dir}")), &imp)) {
+        Ok(Some(p)) => rel(root, &p),
+        Ok(None) => "none".to_string(),
+        Err(m) => format!("panic {m}"),
+    };
+    out.case(&format!("c14 resolve {} {entry_dir} {entry_dir} {e}", fs_enc_at(entry_dir, files)), &format!("cli={cli} shared={shared}"));
+}
+
+/// Visibility with the module's real export computation: a module `m` with the given declarations, and
+/// one importing entry per (spelling, name).
+fn vis_cases(out: &mut Out, root: &str, decls: &[(&str, String, bool, Vec<String>)], extra_names: &[&str]) {
+    let mut src = String::new();
+    for (kind, name, is_pub, variants) in decls {
+        let p = if *is_pub { "pub " } else { "" };
+        match *kind {
+            "fn" => src.push_str(&format!("{p}def {name}() -> int:\n    return 1\n\n")),
+            "const" => src.push_str(&format!("{p}const {name}: int = 1\n\n")),
+            "model" => src.push_str(&format!("{p}model {name}:\n    a: int\n\n")),
+            "class" => src.push_str(&format!("{p}class {name}:\n    a: int\n\n")),
+            "enum" => src.push_str(&format!("{p}enum {name}:\n{}\n", variants.iter().map(|v| format!("    {v}\n")).collect::<String>())),
+            "newtype" => src.push_str(&format!("{p}type {name} = newtype int\n\n")),
+            _ => src.push_str(&format!("{p}trait {name}:\n    def describe_{}(self) -> str: ...\n\n", name.to_lowercase())),
+        }
+    }
+    let enc = decls
+        .iter()
+        .map(|(k, n, p, vs)| format!("{k}:{n}:{}:{}", *p as u8, if vs.is_empty() { "-".to_string() } else { vs.join("+") }))
+        .collect::<Vec<_>>()
+        .join(";");
+    let mut names: Vec<String> = Vec::new();
+    for (_, n, _, vs) in decls {
+        names.push(n.clone());
+        names.extend(vs.iter().cloned());
+    }
+    names.extend(extra_names.iter().map(|s| s.to_string()));
+    for name in names {
+        for form in ["from", "module"] {
+            let line = if form == "from" { format!("from m import {name}") } else { format!("import m::{name}") };
+            let _ = std::fs::remove_dir_all(root);
+            std::fs::create_dir_all(root).expect("mkdir");
+            std::fs::write(format!("{root}/m.incn"), &src).expect("w");
+            std::fs::write(format!("{root}/main.incn"), format!("{line}\n\ndef main() -> None:\n    pass\n")).expect("w");
+            let entry = format!("{root}/main.incn");
+            let res = catch(|| -> Result<String, String> {
+                let modules = incan::cli::commands::collect_modules(&entry).map_err(|e| format!("collect-error:{}", e.message.lines().next().unwrap_or("")))?;
+                let main = modules.last().ok_or("no modules")?;
+                let deps: Vec<(&str, &incan_syntax::ast::Program)> = modules[..modules.len() - 1].iter().map(|m| (m.name.as_str(), &m.ast)).collect();
+                let mut tc = incan::frontend::typechecker::TypeChecker::new();
+                match tc.check_with_imports(&main.ast, &deps) {
+                    Ok(()) => Ok("accept".to_string()),
+                    Err(_) => Ok("reject".to_string()),
+                }
+            });
+            let real = match res {
+                Ok(Ok(s)) => s,
+                Ok(Err(e)) => e,
+                Err(m) => format!("panic {m}"),
+            };
+            out.case(&format!("c14 vis {enc} {form} {name}"), &real);
+        }
+    }
 }
 
 /// An import written in a module of a sub-directory: which file does each side pick?
@@ -194,6 +279,27 @@ pub fn run(out: &mut Out, tier: &str, seed: u64, scratch: &str) {
             nested_case(out, &root, l, "p/sub/c.incn", i);
         }
     }
+    // multi-level parents written in a deeper entry file (entry = p/q/main.incn, then p/q/r/main.incn)
+    let deep_layouts: Vec<Vec<&str>> = vec![
+        vec!["a.incn", "p/a.incn", "p/q/a.incn"],
+        vec!["a.incn", "p/a.incn"],
+        vec!["a.incn", "p/q/a.incn"],
+        vec!["p/a.incn"],
+        vec!["a.incn"],
+        vec!["a/b.incn", "p/a/b.incn", "p/q/a/b.incn"],
+    ];
+    let deep_imports = [
+        "from a import x", "from super::a import x", "from super::super::a import x", "from ..a import x",
+        "from super::super::a::b import x", "from super::a.b import x", "from super::super::super::a import x",
+    ];
+    for l in &deep_layouts {
+        for i in deep_imports {
+            resolve_case_at(out, &root, "p/q", l, i);
+        }
+    }
+    for i in deep_imports {
+        resolve_case_at(out, &root, "p/q/r", &["a.incn", "p/a.incn", "p/q/a.incn", "p/q/r/a.incn"], i);
+    }
     // random layouts × imports
     let n_rand = if tier == "thorough" { 600 } else { 80 };
     let pool = ["p/a.incn", "p/a.incan", "p/a/b.incn", "p/a/mod.incn", "p/b.incn", "a.incn", "p/a/b/mod.incn", "p/src/", "Cargo.toml", "p/pkg/mod.incn", "p/pkg.incn"];
@@ -222,6 +328,36 @@ pub fn run(out: &mut Out, tier: &str, seed: u64, scratch: &str) {
     check_case(out, &root, "cycle-2", &[("main.incn", "from a2 import g\n\ndef main() -> None:\n    print(g())\n"), ("a2.incn", "from b2 import f\n\npub def g() -> int:\n    return 1\n"), ("b2.incn", "from a2 import g\n\npub def f() -> int:\n    return g()\n")]);
     check_case(out, &root, "cycle-self", &[("main.incn", "from main import main\n\ndef main() -> None:\n    pass\n")]);
     check_case(out, &root, "cycle-3", &[("main.incn", "from c1 import f1\n\ndef main() -> None:\n    print(f1())\n"), ("c1.incn", "from c2 import f2\n\npub def f1() -> int:\n    return f2()\n"), ("c2.incn", "from c3 import f3\n\npub def f2() -> int:\n    return f3()\n"), ("c3.incn", "from c1 import f1\n\npub def f3() -> int:\n    return 3\n")]);
+    // exports computed from the module's declarations (every declaration kind, pub and private, enum variants)
+    let d = |k: &'static str, n: &str, p: bool, vs: &[&str]| (k, n.to_string(), p, vs.iter().map(|s| s.to_string()).collect::<Vec<_>>());
+    vis_cases(
+        out,
+        &root,
+        &[d("enum", "Hidden", false, &["Circle", "Square"]), d("enum", "Color", true, &["Red", "Green"]), d("fn", "describe", true, &[]), d("fn", "helper", false, &[])],
+        &["Nowhere"],
+    );
+    vis_cases(
+        out,
+        &root,
+        &[
+            d("const", "LIMIT", true, &[]), d("const", "SECRET", false, &[]), d("model", "User", true, &[]), d("model", "Row", false, &[]),
+            d("class", "Svc", true, &[]), d("class", "Impl", false, &[]), d("newtype", "UserId", true, &[]), d("newtype", "RawId", false, &[]),
+            d("trait", "Shown", true, &[]), d("trait", "Inner", false, &[]),
+        ],
+        &[],
+    );
+    let kinds = ["fn", "const", "model", "class", "enum", "newtype", "trait"];
+    for r in 0..(if tier == "thorough" { 12 } else { 3 }) {
+        let mut ds = Vec::new();
+        let n = 2 + rng.below(4) as usize;
+        for i in 0..n {
+            let k = *rng.pick(&kinds);
+            let base = format!("{}{}x{r}", if k == "fn" { "f" } else if k == "const" { "K" } else { "T" }, i);
+            let vs: Vec<String> = if k == "enum" { (0..1 + rng.below(3)).map(|j| format!("V{i}x{j}")).collect() } else { vec![] };
+            ds.push((k, if k == "const" { base.to_uppercase() } else { base }, rng.chance(1, 2), vs));
+        }
+        vis_cases(out, &root, &ds, &[]);
+    }
     let _ = std::fs::remove_dir_all(&root);
     out.meta(&serde_json::json!({"layouts": layouts.len(), "imports": imports.len(), "nested_layouts": nested_layouts.len(), "random": n_rand}));
 }
